@@ -3,16 +3,16 @@ From TP Require Export PSpecStep.
 
 Definition w_sp : wspec := {| w_first := WSuspend; w_cancel := WPropagate |}.
 Definition cfg2 : config :=
-  {| cf_size := Fin 2; cf_kind := KTask; cf_bad := false; cf_w := w_sp; cf_ecb := CbNone;
+  {| cf_size := Fin 2; cf_kind := KTask; cf_bad := []; cf_w := w_sp; cf_ecb := CbNone;
      cf_ccb := CbNone |}.
 Definition cfgS : config :=
-  {| cf_size := Fin 3; cf_kind := KSimple; cf_bad := false; cf_w := w_sp; cf_ecb := CbSync false;
+  {| cf_size := Fin 3; cf_kind := KSimple; cf_bad := []; cf_w := w_sp; cf_ecb := CbSync false;
      cf_ccb := CbSync false |}.
 
 (** apply(num=3) on a size-2 pool: two workers at their gates, the spawner waits for room, the
     loop is idle *)
 Definition tr_full : list label :=
-  [ LOp (OpApply 3 false false w_sp (CbSync false) (CbAsync true false) None);
+  [ LOp (OpApply 3 [] false w_sp (CbSync false) (CbAsync true false) None);
     LRun (HT (TM 0)); LRun (HT (TP 0)); LGo; LRun (HT (TP 1)); LGo ].
 
 (** ... then task 0 is cancelled, runs its (slow, async) cancel callback, ends; the third task is
